@@ -1,5 +1,5 @@
 //@unit scope
-//@props C15 C18 C17
+//@props C14 C15 C18 C17
 // U-scope: variable scopes are lexical. push_element/pop_element/set_var (src/context.rs) and the
 // four scoping generators (GroupElement, SpecsElement, VarElement in src/transform.rs,
 // ReuseElement in src/reuse.rs) are verified to leave the element stack, the height of the scope
@@ -101,11 +101,16 @@ impl SvgElement {
     #[verifier::external_body] pub fn has_attr(&self, key: &str) -> bool { unimplemented!() }
     #[verifier::external_body] pub fn set_attr(&mut self, key: &str, value: &str) { unimplemented!() }
     #[verifier::external_body] pub fn pop_attr(&mut self, key: &str) -> Option<String> { unimplemented!() }
-    #[verifier::external_body] pub fn eval_attributes(&mut self, ctx: &TransformerContext) -> Result<()> { unimplemented!() }
+    /// ghost: the `{{..}}` / `$var` expressions of the attribute values have been evaluated
+    pub uninterp spec fn evaluated(&self) -> bool;
+    #[verifier::external_body] pub fn eval_attributes(&mut self, ctx: &TransformerContext) -> (r: Result<()>) ensures r is Ok ==> final(self).evaluated() { unimplemented!() }
     #[verifier::external_body] pub fn inner_events(&self, context: &TransformerContext) -> Option<InputList> { unimplemented!() }
     #[verifier::external_body] pub fn is_empty_element(&self) -> bool { unimplemented!() }
     #[verifier::external_body] pub fn bbox(&self) -> Result<Option<BoundingBox>> { unimplemented!() }
-    #[verifier::external_body] pub fn expand_compound_size(&mut self) { unimplemented!() }
+    #[verifier::external_body] pub fn expand_compound_size(&mut self)
+        requires old(self).evaluated(),     // a compound value (wh, rxy, dwh) is split into its parts only after its expressions are evaluated: "{{$s * 2}} {{$s - 1}}" has blanks inside the expressions @C14.reuse.evaluated_before_split @C18.reuse.evaluated_before_split
+        ensures final(self).evaluated()
+    { unimplemented!() }
     #[verifier::external_body] pub fn size(&self, ctx: &TransformerContext) -> Result<Option<Size>> { unimplemented!() }
     #[verifier::external_body] pub fn resolve_position(&mut self, ctx: &TransformerContext) -> Result<()> { unimplemented!() }
     #[verifier::external_body] pub fn set_indent(&mut self, indent: usize) { unimplemented!() }
